@@ -849,7 +849,20 @@ func progressSide(u *Universe, pg *progress, name string) string {
 			if isK && k.Value != nil && !constant.BoolVal(k.Value) {
 				continue
 			}
-			if reachableAvoiding(g.Blocks[0], 0, func(x ssa.Instruction) bool { return x == ssa.Instruction(ret) }, func(x ssa.Instruction) bool { return isCallTo(u, x, "pkg/syntax.Lexer.Next") }) != nil {
+			// a character is consumed by Next() here or in a helper every normal exit of which follows a Next()
+			nextNames := map[string]bool{"pkg/syntax.Lexer.Next": true}
+			consumes := func(x ssa.Instruction) bool {
+				if isCallTo(u, x, "pkg/syntax.Lexer.Next") {
+					return true
+				}
+				if call, isCall := x.(*ssa.Call); isCall {
+					if h := call.Call.StaticCallee(); h != nil && h.Pkg == g.Pkg && h != g {
+						return mustCall(u, h, nextNames, 2, map[*ssa.Function]int{})
+					}
+				}
+				return false
+			}
+			if reachableAvoiding(g.Blocks[0], 0, func(x ssa.Instruction) bool { return x == ssa.Instruction(ret) }, consumes) != nil {
 				return "parseComment can report a comment token without consuming a character"
 			}
 		}
@@ -871,7 +884,7 @@ func checkC05(c *Ctx) {
 		"(C05.cursor) the lexer cursor only moves inside [0, len(Source)] and every syntax-error constructor receives a position derived from GetCursor() / a token's StartIdx; " +
 		"(C05.nilderef) the not-yet-existing current token (TokenP1) and possibly-nil line infos are dereferenced only under a nil test (or a reviewed invariant); " +
 		"(C05.index) every bounds check of the front end and the error printer that the compiler cannot prove is in the reviewed table with its invariant; (C05.render) the caret line never repeats a negative count. " +
-		"(C05.errdrop) after every call of a front-end function that can fail, a normal return is reachable only over the nil edge of a test of that error or by returning it (an error is never dropped and a zero token never mistaken for EOF). NOT decided: 'promptly' (complexity), that the quoted line is the right line (C18)."
+		"(C05.errdrop) after every call of a front-end function that can fail, a normal return is reachable only over the nil edge of a test of that error or by returning it (an error is never dropped and a zero token never mistaken for EOF). (C05.nilfield) pointer fields that some code compares with nil (Program.ExecBlock, ExecBlock.StmtBlock, TokenP1 …) are dereferenced through a parameter only behind a nil test (inconsistent-check rule, access paths compared). NOT decided: 'promptly' (complexity), that the quoted line is the right line (C18)."
 	R.Assumptions = []string{"Lexer.getChar returns RuneEOF at and beyond the end of input", "tables/progress_allow.json and tables/bce.json reviewed entry by entry"}
 	u := c.Core()
 	u.buildSSA()
@@ -1161,6 +1174,12 @@ func checkC05(c *Ctx) {
 // errorDroppedAt: after `call` (whose error result is errV) a normal return of f is reachable without crossing
 // the nil edge of a test of that error and without returning the error: the position of such a return, or ""
 func errorDroppedAt(u *Universe, f *ssa.Function, call ssa.CallInstruction, errV ssa.Value, tests []nilTest) string {
+	return errorDroppedAtMode(u, f, call, errV, tests, false)
+}
+
+// errorDroppedAtMode: with strict, classifying the error (a type assertion or type switch) does not count as
+// handling it: only returning an error, or handing this one to a call or a store, does
+func errorDroppedAtMode(u *Universe, f *ssa.Function, call ssa.CallInstruction, errV ssa.Value, tests []nilTest, strict bool) string {
 	// values that carry this error: itself and phis it feeds
 	carriers := map[ssa.Value]bool{errV: true}
 	for changed := true; changed; {
@@ -1224,7 +1243,7 @@ func errorDroppedAt(u *Universe, f *ssa.Function, call ssa.CallInstruction, errV
 				}
 			}
 		case *ssa.TypeAssert:
-			return carriers[x.X]
+			return !strict && carriers[x.X]
 		case *ssa.Store:
 			return carriers[x.Val]
 		}
@@ -1262,7 +1281,7 @@ func errorDroppedAt(u *Universe, f *ssa.Function, call ssa.CallInstruction, errV
 						}
 					}
 					// `return f()` spelled as a tuple extract of the same call
-					if ex, ok := rv.(*ssa.Extract); ok && ex.Tuple == call.Value() {
+					if ex, ok := rv.(*ssa.Extract); ok && ex.Tuple == call.Value() && (!strict || isErrorType(rv.Type())) {
 						prop = true
 					}
 				}
